@@ -788,34 +788,34 @@ def replay(case):
             if case['tls'] not in ('none', 'starttls', 'immediate') or case['mech'] not in ('PLAIN', 'LOGIN', 'CRAM-MD5', 'UNKNOWN') \
                     or case['shape'] not in ('initial', 'challenge', 'cancel', 'badb64', 'equals', 'noarg', 'badutf8', 'badutf8-challenge') \
                     or case['position'] not in ('normal', 'before-ehlo', 'after-refused-ehlo', 'after-success', 'after-success-reehlo', 'in-transaction'):
-                return []
+                return None            # not a case this check generates: cannot be replayed
             case = dict(case, creds=[str(x) for x in case['creds']][:3])
             if len(case['creds']) != 3:
-                return []
+                return None            # not a case this check generates: cannot be replayed
             return run_auth(case)[0]
         if fam == 'edge-auth':
             creds = [str(x) for x in case['creds']][:3]
             if len(creds) != 3 or not creds[0]:
-                return []
+                return None            # not a case this check generates: cannot be replayed
             return run_edge_auth(dict(case, creds=creds))[0]
         if fam == 'edge-auth-before-tls':
             return run_edge_auth_before_tls({'family': fam, 'reauth': bool(case.get('reauth'))})[0]
         if fam == 'injection':
             if not case.get('prefix') or case['prefix'][0] != 'EHLO plain.example':
-                return []
+                return None            # not a case this check generates: cannot be replayed
             if 'AUTH CRAM-MD5' in case['prefix'] and (not case.get('auth') or len(case['prefix']) != 2):
-                return []
+                return None            # not a case this check generates: cannot be replayed
             case = dict(case, tls_commands=[c for c in case.get('tls_commands', [])
                                             if c in _TLS_CMDS or (case.get('auth') and c in _TLS_AUTH_CMDS)],
                         injected=[c for c in case.get('injected', []) if c in _INJ_LINES])
             if not case['tls_commands']:
-                return []
+                return None            # not a case this check generates: cannot be replayed
             return run_injection(case)[0]
         if fam == 'client':
             inj = [str(x) for x in case.get('injected', [])]
             if inj and inj[-1][3:4] != ' ':
-                return []
+                return None            # not a case this check generates: cannot be replayed
             return run_client_injection(dict(case, injected=inj))[0]
     except KeyError:
-        return []
-    return []
+        return None            # not a case this check generates: cannot be replayed
+    return None            # not a case this check generates: cannot be replayed
